@@ -34,29 +34,46 @@ def _args_key(arrs):
                  for a in arrs)
 
 
+_SREF = (1, -1, 1)        # reflection about the x-z plane
+
+
+def _reflect_arg(arg):
+    return tuple(t if k != 1 else -t for k, t in enumerate(arg))
+
+
 def _canon(h, args):
-    """helpers with a proved antisymmetry lemma f(a, b) == -f(b, a) are stored with their two arguments in canonical
-    order; returns (args, sign, swapped)"""
+    """helpers with proved symmetry lemmas are stored under one canonical representative of their orbit:
+       antisym:  f(a, b) == -f(b, a)
+       reflect:  f(S a, S b) == -S f(a, b)   with S = diag(1, -1, 1)  (pseudo-vector under reflection)
+    returns (canonical args, sign, swapped, reflected) with  f(args) == sign * S^reflected f(canonical args)"""
+    cands = [(args, 1, False, False)]
     if getattr(h, "antisym", False) and len(args) == 2:
-        k0 = tuple(S.rf_key(t) for t in args[0])
-        k1 = tuple(S.rf_key(t) for t in args[1])
-        if k1 < k0:
-            return (args[1], args[0]), -1, True
-    return args, 1, False
+        cands.append(((args[1], args[0]), -1, True, False))
+    if getattr(h, "reflect", False) and all(len(a) == 3 for a in args):
+        for c_args, sg, sw, _ in list(cands):
+            cands.append((tuple(_reflect_arg(a) for a in c_args), -sg, sw, True))
+    if len(cands) == 1:
+        return cands[0]
+    best = None
+    for c in cands:
+        k = tuple(tuple(S.rf_key(t) for t in a) for a in c[0])
+        if best is None or k < best[0]:
+            best = (k, c)
+    return best[1]
 
 
 def fun_vec(h, arrs):
-    args, sgn, _ = _canon(h, _args_key(arrs))
+    args, sgn, _, refl = _canon(h, _args_key(arrs))
     n = max(h.out_len, 1)
     out = np.empty(n, dtype=object).view(S.SymArray)
     for k in range(n):
-        out[k] = sgn * RF.atom(S.fun_atom(h.name, args, k))
+        out[k] = (sgn * (_SREF[k] if refl else 1)) * RF.atom(S.fun_atom(h.name, args, k))
     return out if h.out_len else out[0]
 
 
 def dfun_mat(h, arrs, pos):
-    """matrix [out_len or 1, len(arg pos)] of derivative atoms"""
-    args, sgn, swapped = _canon(h, _args_key(arrs))
+    """matrix [out_len or 1, len(arg pos)] of derivative atoms d f_k / d (arg_pos)_j"""
+    args, sgn, swapped, refl = _canon(h, _args_key(arrs))
     if swapped:
         pos = 1 - pos
     n = max(h.out_len, 1)
@@ -64,7 +81,8 @@ def dfun_mat(h, arrs, pos):
     out = np.empty((n, m), dtype=object).view(S.SymArray)
     for k in range(n):
         for j in range(m):
-            out[k, j] = sgn * RF.atom(S.dfun_atom(h.name, args, k, pos, j))
+            f = sgn * ((_SREF[k] * _SREF[j]) if refl else 1)
+            out[k, j] = f * RF.atom(S.dfun_atom(h.name, args, k, pos, j))
     return out
 
 
@@ -154,8 +172,11 @@ def eval_mtx_stubs():
     hfv = register(Helper("em.finite_vortex", lambda r1, r2: fv(r1, r2), 2, 3,
                           lambda r1, r2: [fv1(r1, r2, I3), fv2(r1, r2, I3)]))
     hfv.antisym = True           # lemma proved in helper.eval_mtx: f(r1, r2) == -f(r2, r1)
+    hfv.reflect = True           # lemma proved in helper.eval_mtx: f(S r1, S r2) == -S f(r1, r2)
     hsv = register(Helper("em.semi_infinite_vortex", lambda u, r: sv(u, r), 2, 3,
                           lambda u, r: [np.full((3, 3), np.nan), svd(u, r, I3)]))
+
+    hsv.reflect = True           # lemma proved in helper.eval_mtx: semi(S u, S r) == -S semi(u, r)
 
     def _apply(h, a, b):
         a = np.asarray(a)
